@@ -270,6 +270,8 @@ def main():
                       kind_free_text='verification-condition generator (symbolic execution of the python ast of the real source, sidecar contracts in /verif/contracts) + z3/cvc5'),
                  dict(name='cxxvc', path='/verif/vc/cxxvc.py', serves_properties=['C01', 'C02', 'C09', 'C10', 'C11', 'C12', 'C16'],
                       kind_free_text='verification-condition generator over clang\'s JSON AST of depccg/parsing.h (invariant rule over the search loop) + z3/cvc5'),
+                 dict(name='depyx', path='/verif/vc/depyx.py', serves_properties=['C02', 'C11', 'C12'],
+                      kind_free_text='mechanical .pyx -> .py extraction of depccg/parsing.pyx (re-done on every run; drops cimport / extern blocks, C types, casts, & and exception specifications): the text PyVC verifies and the bounded harness executes'),
                  dict(name='frame', path='/verif/contracts/frame.py', serves_properties=['C18', 'C14'],
                       kind_free_text='frame (modifies-nothing) obligations per store site, decided by a flow-sensitive points-to abstraction of the real ast'),
                  dict(name='harness', path='/verif/vc/harness.py', serves_properties=['C01', 'C02', 'C07', 'C08', 'C09', 'C10', 'C11', 'C12', 'C15', 'C16', 'C17', 'C18', 'C19', 'C20'],
